@@ -200,7 +200,7 @@ func checkText(text string) error {
 		return fmt.Errorf("text %q: the text at %d:%d (%q) is not a token, but the scanner reaches the end of the input without an error", text, werr.Line, werr.Col, werr.Text)
 	case werr != nil:
 		pos := fmt.Sprintf("t.ebnf:%d:%d", werr.Line, werr.Col)
-		if !strings.Contains(gerr, pos) {
+		if !rec.MentionsPos(gerr, "t.ebnf", werr.Line, werr.Col) {
 			return fmt.Errorf("text %q: the lexical error is reported as %q, the offending text %q starts at %s", text, gerr, werr.Text, pos)
 		}
 	}
